@@ -47,6 +47,22 @@ def handle (req : J) : J :=
      | some mws, some opt, some src, some ign =>
        resJ (fun ws => J.arr (ws.map Word.toJ)) (choiceFetch mws opt src ign)
      | _, _, _, _ => .str "bad-request")
+  | .arr [.str "process_arg", mt, home, arg] =>
+    (match mt.getStr, (match home with | .null => some none | h => h.getStr.map some), arg.getStr with
+     | some mt, some home, some arg =>
+       (match parseObjs mt with
+        | .error e => .arr [.str "parse-failed", e.toJ]
+        | .ok mobjs =>
+          let targets := (allDefinitions mobjs).map (·.1)
+          (match processArg home targets (expertLevels mobjs) arg with
+           | .ok objs => okJ (.arr (objs.map Obj.toJ))
+           | .sorry_ kind paths => .arr [.str "err", .str "sorry", .str kind, .arr (paths.map J.text)]
+           | .runtime e => e.toJ))
+     | _, _, _ => .str "bad-request")
+  | .arr [.str "path_score", home, src, tgt] =>
+    (match (match home with | .null => some none | h => h.getStr.map some), src.getStr, tgt.getStr with
+     | some home, some src, some tgt => okJ (.num (getPathScore home src tgt))
+     | _, _, _ => .str "bad-request")
   | _ => .str "bad-op"
 
 partial def loop (h : IO.FS.Stream) (out : IO.FS.Stream) : IO Unit := do
